@@ -329,6 +329,11 @@ func (c *Client) httpPoll(ctx context.Context, url string) {
 			c.lcache.error(fmt.Errorf("rpc=%s %w", tag, hresp.Error))
 			return
 		}
+		if hresp.Header == nil {
+			const tag = "eth_getBlockByNumber/latest"
+			c.lcache.error(fmt.Errorf("rpc=%s missing result", tag))
+			return
+		}
 		slog.DebugContext(ctx, "http poll",
 			"n", hresp.Number,
 			"h", fmt.Sprintf("%.4x", hresp.Hash),
@@ -375,6 +380,10 @@ func (c *Client) Latest(ctx context.Context, url string, n uint64) (uint64, []by
 		const tag = "eth_getBlockByNumber/latest"
 		return 0, nil, fmt.Errorf("rpc=%s %w", tag, hresp.Error)
 	}
+	if hresp.Header == nil {
+		const tag = "eth_getBlockByNumber/latest"
+		return 0, nil, fmt.Errorf("rpc=%s missing result", tag)
+	}
 	slog.DebugContext(ctx, "http-get-latest",
 		"n", hresp.Number,
 		"h", fmt.Sprintf("%.4x", hresp.Hash),
@@ -397,6 +406,10 @@ func (c *Client) Hash(ctx context.Context, url string, n uint64) ([]byte, error)
 	if hresp.Error.Exists() {
 		const tag = "eth_getBlockByNumber/hash"
 		return nil, fmt.Errorf("rpc=%s %w", tag, hresp.Error)
+	}
+	if hresp.Header == nil {
+		const tag = "eth_getBlockByNumber/hash"
+		return nil, fmt.Errorf("rpc=%s missing result for block %d", tag, n)
 	}
 	return hresp.Hash, nil
 }
